@@ -74,6 +74,14 @@ pub async fn exec(a: &Args) -> Args {
         ep.close(qvi(0), b"");
         return vec![vec![1], seen.0, seen.1];
     }
+    // a stream the application has written to but not finished when the connection ends
+    let mut held = match tokio::time::timeout(T_CALL, conn.open_uni()).await {
+        Ok(Ok(o)) => match tokio::time::timeout(T_CALL, o).await { Ok(Ok(s)) => Some(s), _ => None },
+        _ => None,
+    };
+    if let Some(s) = held.as_mut() {
+        let _ = s.write_all(b"held").await;
+    }
     // pending calls
     let c1 = conn.clone();
     let c2 = conn.clone();
@@ -120,6 +128,24 @@ pub async fn exec(a: &Args) -> Args {
     };
     push(&mut out, closed);
     push(&mut out, raw_wait_closed(&raw.conn, T_SUB).await);
+    // finish() on the held stream, twice: after the end neither call may report success
+    let mut fins = vec![];
+    for _ in 0..2 {
+        let r = match held.as_mut() {
+            Some(s) => match tokio::time::timeout(T_SUB, s.finish()).await {
+                Ok(Ok(())) => vec![TAG_OK],
+                Ok(Err(wtransport::error::StreamWriteError::NotConnected)) => vec![3],
+                Ok(Err(wtransport::error::StreamWriteError::Closed)) => vec![4],
+                Ok(Err(wtransport::error::StreamWriteError::Stopped(c))) => vec![1, c.into_inner()],
+                Ok(Err(wtransport::error::StreamWriteError::QuicProto)) => vec![6],
+                Err(_) => vec![TAG_PENDING],
+            },
+            None => vec![9],
+        };
+        fins.push(r);
+    }
+    out.push(fins[0].clone());
+    out.push(fins[1].clone());
     server.close(vi(0), b"");
     ep.close(qvi(0), b"");
     out
@@ -234,6 +260,17 @@ pub fn oracle(a: &Args, out: &Args) -> Option<(&'static str, String)> {
         }
         if mode == 5 && out[17] != vec![4] && out[17] != vec![1, 0] {
             return Some(("C09", format!("idle timeout: the peer saw {:?}", out[17])));
+        }
+    }
+    // C09: finish() on a stream that was not finished when the connection ended never succeeds
+    if ended && out.len() >= 21 {
+        for (i, name) in [(19usize, "the first"), (20, "the second")] {
+            if out[i] == vec![TAG_OK] {
+                return Some(("C09+C06", format!("{} finish() on an unfinished stream reported success after the connection ended", name)));
+            }
+            if out[i] == vec![TAG_PENDING] {
+                return Some(("C09", format!("{} finish() on an unfinished stream hangs after the connection ended", name)));
+            }
         }
     }
     // C04 / C09: every call reports the cause: the peer's exact code and reason for an application
